@@ -32,6 +32,7 @@ type Config struct {
 	SampleModels  int // completed paths for which a model is recorded (conformance replay)
 	Deadline      time.Time
 	SolverLog     string
+	Prefix        []int64 // explore only below this decision prefix
 }
 
 func (c *Config) defaults() {
@@ -78,6 +79,7 @@ type Engine struct {
 	mu        sync.Mutex
 	opaqueTys map[string]types.Type
 	rootFn    *ssa.Function
+	fnInfos   sync.Map
 	LoadTime  time.Duration
 }
 
@@ -178,13 +180,17 @@ func (e *Engine) interpretable(fn *ssa.Function) bool {
 	return e.pkgInterpretable(fn.Pkg.Pkg.Path())
 }
 
+func (e *Engine) inModule(path string) bool {
+	return path == e.ModPath || strings.HasPrefix(path, e.ModPath+"/")
+}
+
 func (e *Engine) pkgInterpretable(path string) bool {
-	return strings.HasPrefix(path, e.ModPath) || e.allowPkgs[path] || e.pbPkgs[path]
+	return e.inModule(path) || e.allowPkgs[path] || e.pbPkgs[path]
 }
 
 func (e *Engine) initAllowed(pkg *ssa.Package) bool {
 	p := pkg.Pkg.Path()
-	return strings.HasPrefix(p, e.ModPath) || p == "unicode/utf8"
+	return e.inModule(p) || p == "unicode/utf8"
 }
 
 // opaqueType returns a synthetic named type used as the dynamic type of engine objects.
@@ -200,6 +206,56 @@ func (e *Engine) opaqueType(name string) types.Type {
 	return t
 }
 
+type fnInfo struct {
+	idx map[ssa.Value]int
+	n   int
+	ov  *override
+	// cached classification
+	interpretable bool
+	isPkgInit     bool
+	initAllowed   bool
+	name          string
+}
+
+func (e *Engine) info(fn *ssa.Function) *fnInfo {
+	if v, ok := e.fnInfos.Load(fn); ok {
+		return v.(*fnInfo)
+	}
+	fi := &fnInfo{idx: map[ssa.Value]int{}, name: fn.String()}
+	add := func(v ssa.Value) {
+		fi.idx[v] = fi.n
+		fi.n++
+	}
+	for _, p := range fn.Params {
+		add(p)
+	}
+	for _, p := range fn.FreeVars {
+		add(p)
+	}
+	for _, p := range fn.Locals {
+		add(p)
+	}
+	for _, b := range fn.Blocks {
+		for _, i := range b.Instrs {
+			if v, ok := i.(ssa.Value); ok {
+				if _, dup := fi.idx[v]; !dup {
+					add(v)
+				}
+			}
+		}
+	}
+	if fn.Parent() == nil {
+		fi.ov = e.override(fn)
+	}
+	fi.interpretable = e.interpretable(fn)
+	fi.isPkgInit = fn.Name() == "init" && fn.Pkg != nil && fn.Signature.Recv() == nil && fn.Parent() == nil
+	if fi.isPkgInit {
+		fi.initAllowed = e.initAllowed(fn.Pkg)
+	}
+	v, _ := e.fnInfos.LoadOrStore(fn, fi)
+	return v.(*fnInfo)
+}
+
 func (e *Engine) FindFunc(pkgPath, name string) *ssa.Function {
 	for _, p := range e.Prog.AllPackages() {
 		if p.Pkg.Path() == pkgPath {
@@ -213,7 +269,7 @@ func (e *Engine) FindFunc(pkgPath, name string) *ssa.Function {
 func (e *Engine) Harnesses(prefix string) []*ssa.Function {
 	var out []*ssa.Function
 	for _, p := range e.Prog.AllPackages() {
-		if !strings.HasPrefix(p.Pkg.Path(), e.ModPath) {
+		if !e.inModule(p.Pkg.Path()) {
 			continue
 		}
 		for name, m := range p.Members {
@@ -235,6 +291,7 @@ type PathSample struct {
 	PC        []string          `json:"path_condition,omitempty"`
 	Model     map[string]uint64 `json:"model,omitempty"`
 	Observes  []string          `json:"observes,omitempty"`
+	Choices   map[string]int    `json:"choices,omitempty"`
 	End       string            `json:"end"`
 }
 
@@ -270,6 +327,7 @@ type worker struct {
 	id      int
 	solver  *sym.Solver
 	lastSat bool
+	pool    map[int][][]value
 }
 
 type workItem struct{ prefix []int64 }
@@ -294,7 +352,7 @@ func (e *Engine) Explore(fn *ssa.Function, cfg Config) *Report {
 	x := &explorer{e: e, fn: fn, rep: &Report{Harness: fn.String(), Covers: map[string]int{}, Funcs: map[string]int{}, Stubs: map[string]int{}, Params: cfg.Params},
 		violKey: map[string]bool{}}
 	x.cond = sync.NewCond(&x.mu)
-	x.stack = []workItem{{nil}}
+	x.stack = []workItem{{cfg.Prefix}}
 	var wg sync.WaitGroup
 	for i := 0; i < cfg.Workers; i++ {
 		wg.Add(1)
@@ -432,9 +490,19 @@ func (x *explorer) merge(res *runResult) {
 		v.Trace = r.trace
 		v.Kinds = string(r.kinds)
 		for _, o := range res.in.observes {
-			v.Observes = append(v.Observes, o.String())
+			v.Observes = append(v.Observes, o.eval(v.Model))
 		}
 		v.Findings = res.in.findings()
+		for i, c := range r.pc {
+			if i >= 40 {
+				break
+			}
+			v.PC = append(v.PC, c.String())
+		}
+		v.Choices = map[string]int{}
+		for _, c := range res.in.chooseLog {
+			v.Choices[c.Name] = c.Val
+		}
 		key := v.Kind + "|" + v.Label + "|" + strings.Join(v.Findings, ",")
 		if !x.violKey[key] {
 			x.violKey[key] = true
@@ -507,8 +575,9 @@ func (e *Engine) execRun(w *worker, fn *ssa.Function, prefix []int64) *runResult
 	// sample: model + observations of completed (or deadlocked) paths
 	if out.end.kind == "done" || out.end.kind == "deadlock" {
 		smp := &PathSample{Decisions: len(r.trace), Kinds: string(r.kinds), Trace: r.trace, End: out.end.kind}
-		for _, o := range in.observes {
-			smp.Observes = append(smp.Observes, o.String())
+		smp.Choices = map[string]int{}
+		for _, c := range in.chooseLog {
+			smp.Choices[c.Name] = c.Val
 		}
 		for i, c := range r.pc {
 			if i >= 12 {
@@ -525,10 +594,16 @@ func (e *Engine) execRun(w *worker, fn *ssa.Function, prefix []int64) *runResult
 				smp.Model = r.model()
 			}
 		}()
+		if smp.Model != nil {
+			for _, o := range in.observes {
+				smp.Observes = append(smp.Observes, o.eval(smp.Model))
+			}
+		}
 		res.sample = smp
 	}
 	w.solver.Send("(pop 1)\n")
 	w.lastSat = false
+	in.releaseBig()
 	return res
 }
 
